@@ -17,6 +17,9 @@ pub mod serde;
 pub mod value;
 pub mod writer;
 
+#[cfg(sonic_rs_verif)]
+pub mod verif;
+
 // re-export FastStr
 pub use ::faststr::FastStr;
 // re-export the serde trait
